@@ -60,6 +60,32 @@ func leaves(c *ctypes.Carrier, x any, idx *[]int, nErr *int) {
 	}
 }
 
+// edgeKinds reports whether the first and the last leaf of a node are tokens
+// (false: an Error symbol, whose extent the statement does not define).
+func edgeKinds(c *ctypes.Carrier, x any) (firstTok, lastTok bool) {
+	var seq []bool
+	var walk func(x any)
+	walk = func(x any) {
+		switch v := x.(type) {
+		case ctypes.Token:
+			seq = append(seq, true)
+		case *ctypes.Node:
+			for _, k := range v.Kids {
+				walk(k)
+			}
+		default:
+			if _, _, ok := c.AsError(x); ok {
+				seq = append(seq, false)
+			}
+		}
+	}
+	walk(x)
+	if len(seq) == 0 {
+		return false, false
+	}
+	return seq[0], seq[len(seq)-1]
+}
+
 func c16Explore(bn, bb *px.Built, rn, rb *px.Runner, fam string, idx int64, prm c16Params, st *mc.Stats, only []int) []mc.Violation {
 	g := bn.G
 	var out []mc.Violation
@@ -156,7 +182,18 @@ func c16Explore(bn, bb *px.Built, rn, rb *px.Runner, fam string, idx int64, prm 
 				return
 			}
 			if nErr > 0 {
-				continue // spans mixing tokens and @error: exactly-once only
+				// spans mixing tokens and @error: an end of the span that is a token
+				// (not the Error symbol) is still determined
+				ft, lt := edgeKinds(rb.C, e.N)
+				if ft && (bd.Begin.Idx != idx[0] || bd.Begin.Type != w[idx[0]]) {
+					report("wrong-span", w, fmt.Sprintf("_onBounds for {%s} (after error recovery): begin=#%d, but the reduction's first symbol is the input token #%d", prodStr, bd.Begin.Idx, idx[0]))
+					return
+				}
+				if lt && (bd.End.Idx != idx[len(idx)-1] || bd.End.Type != w[idx[len(idx)-1]]) {
+					report("wrong-span", w, fmt.Sprintf("_onBounds for {%s} (after error recovery): end=#%d, but the reduction's last symbol is the input token #%d", prodStr, bd.End.Idx, idx[len(idx)-1]))
+					return
+				}
+				continue
 			}
 			if bd.Begin.Idx != idx[0] || bd.End.Idx != idx[len(idx)-1] {
 				report("wrong-span", w, fmt.Sprintf("_onBounds for {%s}: begin=#%d end=#%d, derived span is #%d..#%d", prodStr, bd.Begin.Idx, bd.End.Idx, idx[0], idx[len(idx)-1]))
